@@ -410,6 +410,79 @@ func readyGuardIdiom(p *engine.Program, u engine.Unproven) string {
 	if bufField == nil {
 		return ""
 	}
+	// inlined form: the readiness test len(buffer) >= size + k sits in this function and the slice
+	// is taken only on the edges where it holds; bounds are constants or size + c with c <= k
+	{
+		var size ssa.Value
+		maxC := int64(0)
+		boundOK := func(v ssa.Value) bool {
+			if v == nil {
+				return true
+			}
+			if k, isC := engine.ConstInt(v); isC {
+				if k > maxC {
+					maxC = k
+				}
+				return k >= 0
+			}
+			if add, isAdd := v.(*ssa.BinOp); isAdd && add.Op == token.ADD {
+				k, isC := engine.ConstInt(add.Y)
+				if !isC || k < 0 || (size != nil && size != add.X) {
+					return false
+				}
+				size = add.X
+				if k > maxC {
+					maxC = k
+				}
+				return true
+			}
+			return false
+		}
+		nonNeg := func(v ssa.Value) bool {
+			// int(<unsigned narrower than int>)
+			for i := 0; i < 3; i++ {
+				cv, isCv := v.(*ssa.Convert)
+				if !isCv {
+					return false
+				}
+				if b, isB := cv.X.Type().Underlying().(*types.Basic); isB && (b.Kind() == types.Uint8 || b.Kind() == types.Uint16 || b.Kind() == types.Uint32) {
+					return true
+				}
+				v = cv.X
+			}
+			return false
+		}
+		if boundOK(sl.Low) && boundOK(sl.High) && size != nil && nonNeg(size) {
+			tE, _ := engine.CondEdges(u.Fn, func(c ssa.Value) (bool, bool) {
+				bo, isB := c.(*ssa.BinOp)
+				if !isB || (bo.Op != token.GEQ && bo.Op != token.LSS) {
+					return false, false
+				}
+				lc, isL := bo.X.(*ssa.Call)
+				if !isL {
+					return false, false
+				}
+				bi, isBi := lc.Common().Value.(*ssa.Builtin)
+				if !isBi || bi.Name() != "len" {
+					return false, false
+				}
+				if f, _ := engine.FieldOfLoad(lc.Common().Args[0]); f != bufField {
+					return false, false
+				}
+				add, isAdd := bo.Y.(*ssa.BinOp)
+				if !isAdd || add.Op != token.ADD || add.X != size {
+					return false, false
+				}
+				if k, isC := engine.ConstInt(add.Y); !isC || k < maxC {
+					return false, false
+				}
+				return true, bo.Op == token.GEQ
+			})
+			if len(tE) > 0 && engine.Reach(u.Fn, nil, engine.EdgeSet{}.Add(tE...), nil, func(x ssa.Instruction) bool { return x == ssa.Instruction(sl) }) == nil {
+				return fmt.Sprintf("I6 the slice is taken only where len(%s) >= size + k was established in the same function (size is a converted unsigned value, bounds are constants or size + c, c <= k)", bufField.Name())
+			}
+		}
+	}
 	for _, ci := range engine.CallsIn(u.Fn) {
 		call, isCall := ci.(*ssa.Call)
 		callee := ci.Common().StaticCallee()
